@@ -1734,7 +1734,22 @@ pub fn hostile(seed: u64, out: &mut Outcome) {
                 let to_server = sim.rng.chance(2, 3);
                 let spoof = sim.rng.chance(2, 3);
                 let (to, from) = if to_server { (saddr, if spoof { caddr } else { addr(53000 + sim.rng.below(3) as u16) }) } else { (caddr, if spoof { saddr } else { addr(54000 + sim.rng.below(3) as u16) }) };
-                let (data, kind) = if sim.history.is_empty() || sim.rng.chance(1, 3) {
+                // a copy of the newest client long-header datagram with a damaged AEAD tag that overtakes the original
+                // (still on the wire): the first packet of an attempt — with or without a Retry token — fails
+                // authentication inside Endpoint::accept, and the genuine copy must still get through afterwards
+                let racing = if to_server && sim.rng.chance(1, 4) {
+                    (0..sim.history.len()).rev().find(|i| sim.history[*i].origin == CLIENT && sim.history[*i].data.first().is_some_and(|b| b & 0x80 != 0)).filter(|i| sim.history_at[*i] + sim.net.latency_ns > sim.now)
+                } else {
+                    None
+                };
+                let from = if racing.is_some() { caddr } else { from };
+                let (data, kind) = if let Some(i) = racing {
+                    let mut g = sim.history[i].data.clone();
+                    let n = g.len();
+                    let k = 1 + sim.rng.below(16) as usize;
+                    g[n - k.min(n)] ^= 0x10;
+                    (g, "race-damaged-tag")
+                } else if sim.history.is_empty() || sim.rng.chance(1, 3) {
                     let len = if sim.rng.chance(2, 3) { *sim.rng.pick(&small) } else { *sim.rng.pick(&[100usize, 1199, 1200, 1201, 1452, 1500]) };
                     let mut data = sim.rng.bytes(len);
                     if len > 0 {
